@@ -10,6 +10,8 @@ failing input: it is shrunk against the real scheduler and reported with a repla
 """
 import json
 import os
+import sys
+import time
 from concurrent.futures import ThreadPoolExecutor
 
 import vlib
@@ -354,7 +356,7 @@ def distribution(cases):
          "with_retry_policy": 0, "retried_runs": 0, "retry_exhausted_runs": 0, "unmet_precondition_runs": 0,
          "setup_failure_runs": 0, "blocked_step_runs": 0, "continue_on_used_runs": 0, "dry_runs": 0,
          "capacity_reached_runs": 0, "capacity_with_retry_wait_runs": 0, "high_water": {}, "events_total": 0,
-         "deps_not_in_index_order": 0}
+         "deps_not_in_index_order": 0, "done_nil_runs": 0, "fails_vs_limit": {"below": 0, "at": 0, "above": 0, "always": 0}}
     for c in cases:
         d["streams"][c["stream"]] = d["streams"].get(c["stream"], 0) + 1
         n = len(c["steps"])
@@ -382,6 +384,14 @@ def distribution(cases):
             d["continue_on_used_runs"] += 1
         if c["dry"]:
             d["dry_runs"] += 1
+        if not c["done"]:
+            d["done_nil_runs"] += 1
+        for s in c["steps"]:
+            lim = s["rlimit"] if s["retry"] else 0
+            if s["fails"] < 0:
+                d["fails_vs_limit"]["always"] += 1
+            elif s["fails"] > 0:
+                d["fails_vs_limit"]["below" if s["fails"] < lim else ("at" if s["fails"] == lim else "above")] += 1
         hw = high_water(c)
         d["high_water"][hw] = d["high_water"].get(hw, 0) + 1
         if c["maxactive"] > 0 and hw == c["maxactive"] and n > c["maxactive"]:
@@ -416,9 +426,16 @@ def classify(c):
     return {"dry": c["dry"], "done": c["done"], "has_retry": any(s["retry"] and s["rlimit"] > 0 for s in c["steps"])}
 
 
+def dbg(msg):
+    if os.environ.get("VERIF_DEBUG"):
+        sys.stderr.write("[%.1f] %s\n" % (time.time(), msg))
+
+
 def evaluate(ctx, pid, tool, cases, tag, shrink_fail=True):
     """Evaluates acceptor + monitors on the given runs; registers failures.  Returns number of accepted traces."""
+    dbg("model_eval start %d" % len(cases))
     bad = model_eval(ctx, cases, tag)
+    dbg("model_eval done, %d not clean" % len(bad))
     pymon = PY_MON[pid]
     accepted = 0
     for pos, c in enumerate(cases):
@@ -431,7 +448,9 @@ def evaluate(ctx, pid, tool, cases, tag, shrink_fail=True):
                 what += " [python and Coq monitors disagree: python=%s coq=%s]" % ("ok" if why is None else "fails", "ok" if coq_mon_ok else "fails")
             small = c
             if shrink_fail and tool is not None and len(ctx.failures) < 3:
+                dbg("shrink start")
                 small = shrink(ctx, tool, c, lambda x: x.get("final") and (pymon(x) is not None))
+                dbg("shrink done")
             ctx.fail("monitor", "%s: %s" % (pid, what), small, cls=classify(c))
             continue
         if v[0] != 0:
@@ -442,8 +461,28 @@ def evaluate(ctx, pid, tool, cases, tag, shrink_fail=True):
     return accepted
 
 
+def agent_dry_part(ctx):
+    """C03, agent level: agent.New(...).Run with Options{Dry:true} (shared driver harness/cmd/agentrun): zero executor
+    events, no history action, no history file; compared with Agent/Run.v as well."""
+    from props import agent_lib
+    acases = agent_lib.run_cases(ctx, ["dry"])
+    if acases is None:
+        return
+    for c in acases:
+        why = agent_lib.monitor(c)
+        if why is not None:
+            ctx.fail("monitor", "C03: " + why, c, cls={"class": "agent-" + c["class"], "sub": c["sub"]})
+    agent_lib.check_model(ctx, acases, tag="c03_agent")
+    ctx.cov["agent_dry_runs"] = agent_lib.summary(acases)
+    ctx.cov["agent_dry_runs_total"] = len(acases)
+
+
 def run_family(ctx, pid, replay_cases=None):
-    ctx.proofs(extra=["Sched/Check.vo"])
+    extra = ["Sched/Check.vo"]
+    if pid == "C03":
+        from props import agent_lib
+        extra += agent_lib.EXTRA_VO
+    ctx.proofs(extra=extra)
     tool, out, _ = vlib.go_build("sched", ctx.scratch)
     if tool is None:
         ctx.fail("correspondence", "harness does not build against /repo", {"log": out[-2000:]})
@@ -489,6 +528,10 @@ def run_family(ctx, pid, replay_cases=None):
         "with a tolerance of %d us, never proved" % EPS,
     ]
     ctx.assumptions = ["runs without stop request / timeout (those are C04/C05)", "no repeatPolicy steps in the generated DAGs"]
+    if pid == "C03" and replay_cases is None:
+        dbg("agent dry part")
+        agent_dry_part(ctx)
+        dbg("agent dry part done")
     if ctx.tier == "thorough":
         ctx.coqchk()
 
